@@ -47,7 +47,7 @@ def sort_of_type(t):
     if isinstance(t, type) and issubclass(t, enum.Enum):
         return ('enum', t)
     if isinstance(t, type) and issubclass(t, ArrayBase):
-        return ('vector', t)
+        return ('obj', t)              # an already constructed vector object is required (no converter)
     if isinstance(t, type) and t.__module__.startswith('cryptoparser'):
         return ('obj', t)
     if isinstance(t, type) and t.__module__.startswith('cryptodatahub'):
@@ -289,3 +289,13 @@ def sym_object(P, cls, name='o', depth=0):
                 raise NoSort('%s.__init__(%s) needs a hint' % (cls.__name__, pname))
             kwargs[pname] = make(P, HINTS[key], '%s_%s' % (name, pname), depth)
     return I.construct(cls, [], kwargs)
+
+
+_orig_sym_object = sym_object
+
+
+def sym_object(P, cls, name='o', depth=0):      # noqa: F811
+    try:
+        return _orig_sym_object(P, cls, name, depth)
+    except NoSort as e:
+        raise E.Unsupported('no sort for a constructor argument: %s' % e)
